@@ -26,7 +26,7 @@ class ProbeScenario(scen_common.ScenarioWithPc):
             answered0 = (st.roots['epoch'], 0) in st.roots['responses'] or st.env.crashed
             nxt = [s.idx for s in st.roots['specs'] if s.idx >= 1 and s.idx not in st.roots['delivered']]
             waiting = [k for k in st.roots['delivered'] if (st.roots['epoch'], k) not in st.roots['responses']]
-            if nxt and not waiting and not st.roots.get('paid'):
+            if nxt and not st.roots.get('paid'):
                 k = nxt[0]
                 def probe(m, k=k):
                     st = m.st
@@ -35,6 +35,7 @@ class ProbeScenario(scen_common.ScenarioWithPc):
                     env.fault_budget = 0
                     env.write_fault_budget = 0
                     env.parts_can_fail = False
+                    env._max_total = len(env.parts) + 1        # the retry's pay command may create its own part
                     env.pay_outcomes = ('complete',)
                     st.roots.setdefault('probe_snap', {})[k] = ds_snapshot(env)
                     self._deliver(k)(m)
@@ -81,11 +82,12 @@ def main(tier, seed, args):
     rep.assumptions = ['retries run against a cooperative node (no faults, the payee releases the preimage)',
                        'a failing retry that leaves the durable state exactly as it found it will fail forever (fixpoint)']
     rep.trusted = ['mirsym', 'z3', 'node model', 'tokio contracts']
-    budget = 110 if tier == 'quick' else 1500
+    budget = 440 if tier == 'quick' else 3000
     configs = []
     for name, kw in (('crash', dict(crash=1)), ('write fault', dict(write_faults=1))):
-        cfg, pc = scen_payflow.flow_cfg(3, 'free_absent', amounts=[1006000] * 3, pay_outcomes=('complete', 'failed'), **kw)
-        configs.append(('interrupted by %s, then 2 retries' % name, cfg, pc, kw))
+        for store in ('free_absent', 'free'):
+            cfg, pc = scen_payflow.flow_cfg(3, store, amounts=[1006000] * 3, pay_outcomes=('complete', 'failed'), **kw)
+            configs.append(('interrupted by %s, then 2 retries%s' % (name, '' if store == 'free_absent' else ' (hash used before)'), cfg, pc, kw))
     if tier == 'thorough':
         cfg, pc = scen_payflow.flow_cfg(3, 'free_absent', amounts=[1006000] * 3, pay_outcomes=('complete', 'failed'), crash=1, write_faults=1)
         configs.append(('crash + write fault, then 2 retries', cfg, pc, {}))
